@@ -98,6 +98,7 @@ def run(ctx, prove=True):
                             {"dialect": d, "grammar_entry": entry}, key="grammar-static:%s:%s" % (d, entry))
     if prove:
         ctx.prove(["SqlfluffVerif.Props.C03", "SqlfluffVerif.Props.C03b", "SqlfluffVerif.Gen.GrammarSkel"], ["Props/C03.lean", "Props/C03b.lean"], ["Gen/GrammarSkel.lean"])
+    skeleton_semantics(ctx, ctx.budget(300, 6000))
     ctx.trusted += ["harness/translate/grammar_balance.py (translator: grammar objects -> indent skeletons; a grammar without metas is abstracted to `leaf`)"]
     ctx.partial += ["balance of what the grammars emit is checked on real trees (spec evaluation), not yet proved from the grammar definitions",
                     "partial-match returns of Sequence.match are a known finding (attributed by instrumentation)"]
@@ -171,6 +172,162 @@ def run(ctx, prove=True):
                     ctx.violation(what, dict(case, grammar_element=c), key="grammar:%s:%s:unbalanced-indent" % (d, c))
             else:
                 ctx.violation(what, case)
+
+
+
+# ---------------------------------------------------------------------------------------------
+# stage 2 tie: the skeleton semantics the translator and the theorem assume vs what the parser engine does
+
+def skeleton_semantics(ctx, n):
+    """Random small grammars built from the real grammar classes (Sequence, Bracketed, OneOf, AnyNumberOf, Delimited, optional
+    elements, Indent/Dedent/Conditional) together with a sentence they match; the real engine matches the sentence and the
+    inserts of the match result are summed under two configurations. The translator's skeleton of the same grammar object is
+    evaluated (a) along the derivation the sentence was built from and (b) by Lean's `vecs`: the real balance must equal the
+    derivation's vector under the configuration, that vector must be in Lean's set, and Lean's set must equal the translator's."""
+    from sqlfluff.core import FluffConfig, Lexer
+    from sqlfluff.core.parser import Sequence, Bracketed, OneOf, AnyNumberOf, Delimited, Ref, StringParser, KeywordSegment, Indent, Dedent
+    from sqlfluff.core.parser.grammar.conditional import Conditional
+    from sqlfluff.core.parser.context import ParseContext
+    from translate import grammar_balance as gb
+    rng = ctx.rng
+    lines, meta = [], []
+    counter = [0]
+
+    def kw():
+        counter[0] += 1
+        w = "K%d" % counter[0]
+        return StringParser(w, KeywordSegment), [w], ("leaf",), {}
+
+    COND = {1: dict(indented_joins=True), 2: dict(indented_joins=False), 3: dict(indented_then=True)}
+
+    def build(depth):
+        """-> (grammar, sentence tokens, skeleton, derivation vector {cond: sum})"""
+        r = rng.random()
+        if depth > 2 or r < 0.25:
+            return kw()
+        if r < 0.6 or r >= 0.95:
+            els, toks, sk, vec = [], [], [], {}
+            for _ in range(rng.randint(1, 4)):
+                q = rng.random()
+                if q < 0.3:
+                    v = rng.choice([1, -1]); c = rng.choice([0, 0, 1, 2, 3])
+                    els.append((Indent if v > 0 else Dedent) if c == 0 else Conditional(Indent if v > 0 else Dedent, **COND[c]))
+                    sk.append(("meta", v, c)); vec[c] = vec.get(c, 0) + v
+                else:
+                    g, t, k, w = build(depth + 1)
+                    els.append(g); toks += t; sk.append(k)
+                    for c, x in w.items():
+                        vec[c] = vec.get(c, 0) + x
+            if not toks:
+                g, t, k, w = kw(); els.append(g); toks += t; sk.append(k)
+            if r >= 0.95 or rng.random() < 0.35:
+                # Bracketed: every meta below the bracket (there are no classed segments in these grammars) is dropped by the engine
+                from translate.grammar_balance import strip_metas
+                return Bracketed(*els), ["("] + toks + [")"], ("seq", [strip_metas(k) for k in sk]), {}
+            return Sequence(*els), toks, ("seq", sk), vec
+        if r < 0.75:
+            alts = [build(depth + 1) for _ in range(rng.randint(2, 3))]
+            i = rng.randrange(len(alts))
+            return OneOf(*[a[0] for a in alts]), alts[i][1], ("alt", [a[2] for a in alts]), alts[i][3]
+        if r < 0.85:
+            g, t, k, w = build(depth + 1)
+            present = rng.random() < 0.5
+            return Sequence(g, optional=True), (t if present else []), ("opt", ("seq", [k])), (w if present else {})
+        # repetition of a neutral element, delimited
+        g, t, k, w = kw()
+        reps = rng.randint(1, 3)
+        toks = []
+        for i in range(reps):
+            toks += t + ([","] if i < reps - 1 else [])
+        from sqlfluff.core.parser import SymbolSegment
+        return Delimited(g, delimiter=StringParser(",", SymbolSegment)), toks, ("rep", [k, ("leaf",)]), {}
+
+    def enc(k):
+        t = k[0]
+        if t == "meta":
+            return [0, 1 if k[1] > 0 else 0, k[2]]
+        if t == "leaf":
+            return [1]
+        if t == "ref":
+            return [2]
+        if t == "opt":
+            return [3] + enc(k[1])
+        code = {"seq": 4, "alt": 5, "rep": 6}[t]
+        out = [code, len(k[1])]
+        for e in k[1]:
+            out += enc(e)
+        return out
+
+    def total(m):
+        s_ = sum(int(cls.indent_val) for (_i, cls) in m.insert_segments)
+        return s_ + sum(total(c) for c in m.child_matches)
+
+    cfgs = [dict(indented_joins=True, indented_then=False), dict(indented_joins=False, indented_then=True)]
+    enabled = [lambda c: c in (0, 1), lambda c: c in (0, 2, 3)]
+    for _ in range(n):
+        counter[0] = 0
+        g, toks, sk, vec = build(0)
+        if not toks or len(toks) > 40:
+            continue
+        # what the translator makes of the same grammar object
+        conds = {}
+        entries, cmap, _notes = None, None, None
+        try:
+            tsk = translate_one(g)
+        except Exception as e:
+            ctx.corr_fail("translator raised on a synthetic grammar", {"grammar": repr(g)[:300], "error": repr(e)[:200]}); continue
+        text = " ".join(toks)
+        reals = []
+        for ci, over in enumerate(cfgs):
+            cfg = FluffConfig(overrides={"dialect": "ansi"}, configs={"indentation": over})
+            segs, _ = Lexer(config=cfg).lex(text)
+            segs = [s_ for s_ in segs if not s_.is_meta]
+            pc = ParseContext.from_config(cfg)
+            try:
+                m = g.match(segs, 0, pc)
+            except Exception as e:
+                reals.append(("raised", repr(e)[:80])); continue
+            code_end = max((i + 1 for i, s_ in enumerate(segs) if s_.is_code), default=0)
+            reals.append(("ok", total(m), m.matched_slice.stop >= code_end))
+        case = {"grammar": repr(g)[:400], "sentence": text, "skeleton": repr(sk)[:400], "derivation_vector": vec}
+        ctx.count(("skel", repr(sk), text), nontrivial=len(toks) > 2)
+        ctx.bump("skeleton_cases")
+        if tsk != norm_sk(sk):
+            ctx.corr_fail("translator skeleton differs from the generator's for the same grammar object", dict(case, translated=repr(tsk)[:400]))
+            continue
+        for ci, r in enumerate(reals):
+            if r[0] != "ok" or not r[2]:
+                ctx.bump("skeleton_engine_no_full_match"); continue
+            want = sum(x for c, x in vec.items() if enabled[ci](c))
+            if r[1] != want:
+                ctx.corr_fail("engine inserts differ from the skeleton derivation", dict(case, config=cfgs[ci], engine_balance=r[1], derivation_balance=want))
+        b = gb.balances(tsk)
+        pyset = "none" if b is None else ";".join(sorted((",".join("%d:%d" % (c, v) for c, v in sorted(w)) or "0") for w in b))
+        lines.append("skel.vecs " + ",".join(str(x) for x in enc(tsk)))
+        meta.append((case, pyset, ",".join("%d:%d" % (c, v) for c, v in sorted(vec.items()) if v) or "0"))
+    outs = ctx.driver.run(lines) if lines else []
+    for (case, pyset, dv), out in zip(meta, outs):
+        lean = out.strip()
+        lset = lean if lean == "none" else ";".join(sorted(lean.split(";")))
+        if lset != pyset:
+            ctx.corr_fail("Lean vecs differs from the translator's analysis", dict(case, lean=lean, translator=pyset))
+        elif lean != "none" and dv not in lean.split(";"):
+            ctx.corr_fail("the derivation's vector is not in the computed set", dict(case, lean=lean, derivation=dv))
+
+
+def norm_sk(k):
+    t = k[0]
+    if t == "opt":
+        return ("opt", norm_sk(k[1]))
+    if t in ("seq", "alt", "rep"):
+        return (t, [norm_sk(e) for e in k[1]])
+    return tuple(k)
+
+
+def translate_one(g):
+    """The translator's conversion applied to one grammar object (same code path as for dialect entries)."""
+    from translate import grammar_balance as gb
+    return norm_sk(gb.convert_object(g))
 
 
 def search(ctx):
